@@ -111,6 +111,10 @@ def rangeS (pm : List Param) : Stmt → Frame → Bool
   | .setCol _ _, _ => false
   | .tabsAppendRange _ _ _, _ => false
   | .cut _ _ _ _, _ => true
+  | .setSS _, _ => true
+  | .setSel _, _ => true
+  | .setDesig _ _, _ => true
+  | .setShape x, s => exR pm s [] x
   | .pmDefault0, _ => true
   | .skipParams _, _ => true
   | .attrOn _, _ => true
